@@ -210,6 +210,9 @@ fn main() {
             if args.str("mode", "shared-stream") == "last-receiver" {
                 shard.rule = "run = 2000 trials of one configuration (flavour, N, what the other thread does, drop or unsubscribe): two long-lived threads are released together with seeded skew, one makes the last receiver leave, the other one runs the memory manager (drops/clones senders, drops the other stream) after the retire list was filled to a seeded level; then try_send must say Disconnected; distinct = configuration; non-trivial = a reclamation cycle started or completed (MM_EPOCH_BUMP / MM_DEALLOC sites) inside the window in at least one trial".to_string();
                 tight::run_last_receiver(args.u64("seed", 1), args.u64("runs", 100), args.u64("budget-ms", 0), args.flag("small"), &mut shard);
+            } else if args.str("mode", "shared-stream") == "handle-count" {
+                shard.rule = "run = 1000 trials of one configuration (receiver or sender handles, flavour, N): two long-lived threads clone and drop handles of the same stream / of the same queue at the same time with seeded skew, then the handle counts are read back through behaviour at quiescence (capacity while the stream has handles, which unsubscribe() says 'last', no limit afterwards; no value lost between the surviving senders, Disconnected after the last one); distinct = configuration; every run is non-trivial".to_string();
+                tight::run_handle_count(args.u64("seed", 1), args.u64("runs", 100), args.u64("budget-ms", 0), args.flag("small"), &mut shard);
             } else {
                 tight::run_many(args.u64("seed", 1), args.u64("runs", 100), args.u64("budget-ms", 0), args.flag("small"), &mut shard);
             }
